@@ -598,6 +598,13 @@ def step (s : DState) (line : String) : DState × String :=
           | some _ => "err") ++ " | " ++ toString sp.length ++ " " ++ toString (fnv sp).toNat ++ " | rep=" ++
       bit m.repB ++ " wf=" ++ bit (wfListB m.avps) ++ " cons=" ++
       bit (consListB m.avps && m.length == 20 + lenList m.avps))
+  | ["encha"] =>
+    let m := s.ms.msg
+    let one (a : Avp) : String := match (encList [a]).err with
+      | none => "ok:" ++ toString (encList [a]).bytes.length ++ ":" ++ toString (fnv (encList [a]).bytes).toNat
+      | some _ => "err"
+    let r := if m.avps.isEmpty then "-" else ";".intercalate (m.avps.map one)
+    (s, r ++ " | " ++ r ++ " | -")
   | "encw" :: k :: _ =>
     match k.toNat? with
     | some k =>
